@@ -190,6 +190,54 @@ def build(rng, n, edges, deg, kinds_for, extra_subst=0.25, p_isotope=0.04):
     return m, kind_of, set(edges)
 
 
+def poly_aryl(rng, n_aryl=None, core_sizes=(5, 6, 6), aryl_sizes=(6,)):
+    """A core ring carrying several aryl rings, joined by bonds written implicitly between two aromatic atoms.  Such a
+    bond is an aromatic (order 1.5) edge for the encoder and for the independent reader alike, so the pi-graph is
+    one connected graph with bridges (tetraphenylthiophene, hexaphenylbenzene, rubrene type) - the shape on which a
+    greedy matching leaves several atoms unmatched and more than one augmenting search runs in one kekulization."""
+    k = rng.choice(core_sizes)
+    n = k
+    edges = set((min(i, (i + 1) % k), max(i, (i + 1) % k)) for i in range(k))
+    deg = [2] * k
+    attach = [v for v in range(k)]
+    rng.shuffle(attach)
+    n_aryl = n_aryl or rng.choice([2, 3, 4, 5, 6])
+    hetero_core = (k == 5) or rng.random() < 0.3     # a five-ring core always carries a donor atom: the pi-graph stays bipartite
+    spots = attach[: min(n_aryl, k - (1 if hetero_core else 0))]
+    for v in spots:
+        r = rng.choice(aryl_sizes)
+        ring = list(range(n, n + r))
+        n += r
+        deg += [2] * r
+        for i in range(r):
+            a, b = ring[i], ring[(i + 1) % r]
+            edges.add((min(a, b), max(a, b)))
+        edges.add((v, ring[0]))
+        deg[v] += 1
+        deg[ring[0]] += 1
+        if rng.random() < 0.3:      # a second generation (terphenyl-like arms)
+            r2 = rng.choice(aryl_sizes)
+            ring2 = list(range(n, n + r2))
+            n += r2
+            deg += [2] * r2
+            for i in range(r2):
+                a, b = ring2[i], ring2[(i + 1) % r2]
+                edges.add((min(a, b), max(a, b)))
+            w = ring[len(ring) // 2]
+            edges.add((w, ring2[0]))
+            deg[w] += 1
+            deg[ring2[0]] += 1
+    free_core = [v for v in range(k) if deg[v] == 2]
+
+    def kinds_for(v, d):
+        if d == 3:
+            return "c"
+        if hetero_core and free_core and v == free_core[0]:
+            return rng.choice(["s", "o", "[nH]", "nR"])
+        return "c" if rng.random() < 0.9 else rng.choice(["n", "cR"])
+    return build(rng, n, sorted(edges), deg, kinds_for, extra_subst=0.05)
+
+
 def single_ring_bonds(rng, m, kind_of, ae, k=1):
     """Turn up to k aromatic ring bonds between plain aromatic carbons into explicit single bonds (written '-'):
     the two atoms still need a pi bond, but not along this bond.  Returns the new aromatic edge set."""
